@@ -15,8 +15,10 @@ struct kernel_symbol { unsigned long value; const char *name; };
 static const char modinfo_license[] __attribute__((section(".modinfo"), used, aligned(1))) = "license=GPL";
 struct module { char name[56]; } __this_module __attribute__((section(".gnu.linkonce.this_module"))) = { "fakemod" };
 int mod_op(struct mdata *m) { return m->base.refs + m->tag[0]; }
+#ifndef NOEXPORT       /* -DNOEXPORT: a module that exports nothing (legal, unusual) */
 #if V >= 1
 int mod_new(struct mdata *m) { return m->tag[1]; }
 EXPORT_SYMBOL(mod_new);
 #endif
 EXPORT_SYMBOL(mod_op);
+#endif
